@@ -60,3 +60,14 @@ impl LuaIndex for LuaDeclIndex {
         self.decl_trees.clear();
     }
 }
+
+/// Verification hook (feature `verif-hooks`, off by default): entry count of every container
+/// of this index, so that tests can observe growth of indexed state.
+#[cfg(feature = "verif-hooks")]
+impl LuaDeclIndex {
+    pub fn verif_sizes(&self) -> Vec<(&'static str, usize)> {
+        vec![
+            ("decl.decl_trees", self.decl_trees.len()),
+        ]
+    }
+}
